@@ -103,6 +103,39 @@ class Gen:
         return Module(items), slots, globs + args + allnames
 
 
+def binding_program(rng):
+    """run-time binding: a small pool of names is declared again and again in sibling scopes (blocks, branches, loop bodies, loop headers), with and without
+    initialiser; every fresh variable is folded into the global g0 right after its declaration and left non-zero afterwards, so a declaration that binds
+    to an older variable of the same name (or keeps its value) changes the result"""
+    r = rng
+    pool = ["a", "b", "c", "d"]
+    def stmts(depth, vis):
+        out, vis = [], list(vis)
+        for _ in range(r.choice([2, 3])):
+            cand = [n for n in pool if n not in vis]
+            c = r.random()
+            if (depth <= 0 or c < 0.4) and cand:
+                x = r.choice(cand)
+                out.append(Decl("int", x, None if r.random() < 0.55 else B("+", V(r.choice(vis)), I(r.randrange(1, 4))))); vis.append(x)
+                out.append(ES(A(V("g0"), B("%", B("+", B("*", V("g0"), I(7)), V(x)), I(1000003)))))
+                out.append(ES(A(V(x), B("+", V(x), I(r.randrange(1, 9))))))
+            elif depth > 0 and c < 0.55:
+                out.append(Block(stmts(depth - 1, vis)))
+            elif depth > 0 and c < 0.75:
+                out.append(If(B("<", V(r.choice(vis)), I(r.randrange(1, 6))), Block(stmts(depth - 1, vis)), Block(stmts(depth - 1, vis)) if r.random() < 0.7 else None))
+            elif depth > 0 and cand:
+                x = r.choice(cand)
+                out.append(For(Decl("int", x, I(0)), B("<", V(x), I(2)), Pre("++", x), Block(stmts(depth - 1, vis + [x]))))
+            else:
+                out.append(ES(A(V("g0"), B("%", B("+", B("*", V("g0"), I(3)), V(r.choice(vis))), I(1000003)))))
+        return out
+    body = stmts(3, ["g0", "p0", "p1"])
+    body.append(Ret(B("+", V("g0"), V("p0"))))
+    m = Module([Global("int", "g0"), Func("f", [Arg("int", "p0"), Arg("int", "p1")], "int", Block(body), export=True)])
+    calls = [{"fn": "f", "args": {"p0": r.randrange(0, 6), "p1": r.randrange(0, 6)}, "globals": {"g0": r.randrange(0, 5)} if k == 0 else {}, "read_globals": ["g0"]} for k in range(2)]
+    return m, calls
+
+
 def variants(g, rng):
     """one base program and mutated copies: an extra declaration / use at every kind of point with every kind of name"""
     m, slots, names = g.program()
@@ -245,15 +278,47 @@ def run(ctx):
                 bad_spec.append(x)
         elif c & 1:
             bad_model.append(x)
-    ctx.cov["evaluations"] = len(jobs)
-    ctx.cov["distinct_nontrivial"] = len({j["src"] for k, j, r, c in meta if k != "base"})
+    # run-time binding: sibling scopes declaring the same names, executed by the real VM, the VM model and the reference semantics
+    import vmcases
+    rt = [binding_program(rng) for _ in range(60 if ctx.tier == "quick" else 1500)]
+    rjobs = [vmcases.job(nslgen.render(m, "canonical", rng)[0], calls, optimize=bool(k % 2)) for k, (m, calls) in enumerate(rt)]
+    rres = ctx.run_impl("compile_impl.py", rjobs, nworkers=16)
+    blocks, rmeta, rt_bad = [], [], []
+    for k, ((m, calls), j, r) in enumerate(zip(rt, rjobs, rres)):
+        if not r["accept"] or "ir" not in r or "calls" not in r:
+            rt_bad.append((j, r)); continue
+        blocks.append(vmcases.case_block(k, m, r, calls, with_spec=True, with_ir=not j["opts"]["optimize"])); rmeta.append((j, calls, r))
+    rfiles = vmcases.write_case_files(ctx, "C12rt", blocks)
+    routs = ctx.eval_cases(rfiles, timeout=900)
+    rcodes = vmcases.collect_codes(ctx, rfiles, routs, len(blocks))
+    rt_spec = [x for x, c in zip(rmeta, rcodes) if c is not None and c & 2]
+    rt_model = [x for x, c in zip(rmeta, rcodes) if c is not None and (c & 1 or (c & 16 and not c & 64))]
+    dist["runtime-binding:programs"] = len(rt)
+    dist["runtime-binding:agree"] = sum(1 for c in rcodes if c == 0)
+    dist["runtime-binding:spec-out-of-domain"] = sum(1 for c in rcodes if c is not None and c & 8)
+    ctx.cov["evaluations"] = len(jobs) + sum(len(c) for _, c in rt)
+    ctx.cov["distinct_nontrivial"] = len({j["src"] for k, j, r, c in meta if k != "base"}) + len({j["src"] for j in rjobs})
     ctx.cov["rule"] = ("random all-int programs (globals, parameters, nested blocks / if-else / for with header variable / while / do, depth 3); at sampled statement positions an "
                        "extra declaration or an extra use is inserted with a name that is visible there, declared only in a closed or sibling scope, or fresh; plus 18 targeted shapes "
                        "(unbraced branches, loop headers, parameter/global clashes, use after scope, own initialiser). Accept / kind of rejection of the real compiler compared inside "
-                       "Coq with the model (typing-scope assertion, unknown symbol, name validator) and the flat lexical specification. Non-trivial: a mutated or targeted program.")
+                       "Coq with the model (typing-scope assertion, unknown symbol, name validator) and the flat lexical specification. Non-trivial: a mutated or targeted program. Run-time binding: programs that declare a pool of four names again and again in sibling blocks, branches, loop "
+                       "bodies and loop headers (with and without initialiser), fold every fresh variable into a global and leave it non-zero; executed at both optimisation settings by the real VM, the VM model and the "
+                       "reference semantics, compared inside Coq.")
     ctx.cov["samples"] = [{"kind": k, "source": j["src"], "impl_code": c} for k, j, r, c in (meta[:2] + meta[30:32])]
     ctx.extra["input_distribution"] = dist
-    ctx.extra["disagreements_checked"] = len(codes)
+    ctx.extra["disagreements_checked"] = len(codes) + len(rcodes)
+    if rt_spec or rt_bad:
+        if rt_spec:
+            j, calls, r = min(rt_spec, key=lambda x: len(x[0]["src"]))
+            ctx.violation("failing-input", {"what": "a name declared again in a sibling scope does not denote a new variable at run time: the VM's result differs from the reference semantics",
+                                            "source": j["src"], "options": j["opts"], "calls": calls, "observed": r["calls"], "count": len(rt_spec)})
+        else:
+            j, r = rt_bad[0]
+            ctx.violation("failing-input", {"what": "a program that declares names again in sibling scopes was rejected or could not be run", "source": j["src"],
+                                            "observed": {k: v for k, v in r.items() if k != "ir"}, "count": len(rt_bad)})
+    elif rt_model:
+        j, calls, r = rt_model[0]
+        ctx.broken.append("correspondence (run-time binding): VM / lowering model differ from the real compiler on %d program(s), e.g. %s" % (len(rt_model), j["src"][:300]))
     if bad_spec:
         k, j, r, c = min(bad_spec, key=lambda x: len(x[1]["src"]))
         ctx.violation("failing-input", {"what": "accept/reject differs from the lexical visibility rule (0 accept, 1/3 redeclaration, 2 unknown name)", "case_kind": k,
